@@ -89,3 +89,19 @@ CHECKS["C03"] = dict(
                      "TestC03Resp.release_from_finalizing": 20, "TestC03Step.steps_applied": 4000}),
     assumptions=["event classes (lifecycle/bookkeeping/ending) are read off the property statement, see chk/hist_test.go eventClass"],
 )
+
+CHECKS["C02"] = dict(
+    level="exploration",
+    rule=("case index enumerates role (4) x terminal status (3) x {same process, manager/channels reopened on the same datastore} x route variant. C02Chan: "
+          "channels API; all 28 event-sending operations (thorough: sequences of 1-3) applied in PRNG order to the terminated channel. C02Mgr: real manager over "
+          "recording doubles; ~45-60 stimuli per case in PRNG order: every message kind the counterparty can send (over the network receiver and over the transport "
+          "callback path, accepted/rejected x paused/unpaused), restart and duplicate new requests, every transport callback, every manager API call. After each stimulus: "
+          "all accessors (incl. stage log) equal, stored bytes equal, no subscriber event for the channel, no transport open, no restart/new request or accepted reply on "
+          "the network, Restart/Close return nil, no panic. distinct = (role, terminal, reopened, route variant)."),
+    parts=[
+        dict(test="TestC02Chan", quick=48, thorough=2400, per_shard=6),
+        dict(test="TestC02Mgr", quick=48, thorough=2400, per_shard=6),
+    ],
+    floors=dict(any={"TestC02Chan.stimuli": 1000, "TestC02Mgr.stimuli": 1500}),
+    assumptions=["pause/resume/close calls reaching the transport double for a terminated channel are not counted (the property speaks of channel fields, events and restart traffic)"],
+)
